@@ -112,7 +112,9 @@ class System:
         lines += ["try:", f"    r = ('ok', {ev.src})" if _is_expr(ev.src) else f"    {ev.src}; r = ('ok', None)",
                   "except Exception as e:", "    r = ('exc', None)"]
         if accept is None:
-            lines.append("assert False, 'expected termination'")
+            # the event did not return within the watchdog's CPU budget: replay it under an alarm - if it returns, the replay passes
+            lines.insert(0, "import signal; signal.alarm(120)")
+            lines.append("signal.alarm(0)")
         else:
             alts = [(tuple(p) if p[0] == 'ok' else ('exc', None), b) for p, b in accept]
             lines.append(f"assert (r, s.bin) in {alts!r}, (r, s.bin)")
